@@ -9,3 +9,7 @@ pub mod util;
 
 #[cfg(kani)]
 mod c01_window;
+#[cfg(kani)]
+mod c14_detectors;
+#[cfg(kani)]
+mod c16_action;
